@@ -1005,7 +1005,7 @@ func genConc(t *rapid.T) *ConcCase {
 			continue
 		}
 		for _, f := range rapid.SliceOfNDistinct(rapid.IntRange(0, numFiles-1), 1, 4, rapid.ID[int]).Draw(t, "files") {
-			c.Setup = append(c.Setup, Op{K: kOpen, H: i, Var: f})
+			c.Setup = append(c.Setup, Op{K: kOpen, H: i, Var: f, N: drawOpenCount(t)})
 			kinds = append(kinds, kOpen)
 		}
 	}
